@@ -8,7 +8,7 @@ signature is built from the fields that remain, by class.
 """
 import itertools
 
-from mc.runner import Stats, split
+from mc.runner import Stats
 
 ID = "C55"
 LEVEL = "exploration"
@@ -33,8 +33,8 @@ ASSUMPTIONS = [
     "formatEventAsClassicLogText and textFromEventDict may return None where their documentation says so",
     "legacy event dicts always carry 'message' (a tuple) and 'isError', as twisted.python.log guarantees",
 ]
-MIN = {"quick": {"evaluations": 450000, "nontrivial": 50000, "outcomes": 8},
-       "thorough": {"evaluations": 1500000, "nontrivial": 100000, "outcomes": 8}}
+MIN = {"quick": {"evaluations": 470000, "nontrivial": 450000, "outcomes": 8},
+       "thorough": {"evaluations": 1080000, "nontrivial": 1050000, "outcomes": 8}}
 
 
 # ----------------------------------------------------------------- hostile values
